@@ -1,6 +1,8 @@
 #ifndef CHESS_ENGINE_UTILS_H_
 #define CHESS_ENGINE_UTILS_H_
 
+#include "verif_hook.h"
+
 namespace engine
 {
 
@@ -64,6 +66,7 @@ namespace engine
     {                                                               \
         Value ret = (val);                                          \
         LOG_DEBUG("[%d] EXIT SEARCH score=%ld", info->_ply, ret); \
+        VERIF_POINT("exit", info->_ply, ret);                       \
         return ret;                                                 \
     }
 
@@ -71,6 +74,7 @@ namespace engine
     {                                                                           \
         Value ret = (val);                                                      \
         LOG_DEBUG("[%d] EXIT QUIESCENCE_SEARCH score=%ld", info->_ply, ret);  \
+        VERIF_POINT("qexit", info->_ply, ret);                                  \
         return ret;                                                             \
     }
 
